@@ -330,3 +330,35 @@ func atoi(s string) int {
 	}
 	return n
 }
+
+// SelfField returns the index of a mandatory interface-typed field of s whose interface s itself
+// implements (so values of s can be nested in themselves), or -1.
+func (g *Gen) SelfField(s *Struct) int {
+	for i, f := range s.Fields {
+		if f.Tag != "none" || f.Type.Kind() != reflect.Interface {
+			continue
+		}
+		id, ok := g.U.ifaceID[f.Type]
+		if !ok || id == 0 {
+			continue
+		}
+		for _, k := range s.Impls {
+			if k == id {
+				return i
+			}
+		}
+	}
+	return -1
+}
+
+// Chain builds s{field: s{field: ... leaf}} with n levels.
+func (g *Gen) Chain(s *Struct, fi int, n int) reflect.Value {
+	inner := g.Value(s.Fields[fi].Type, 1, true) // a leaf of the interface
+	var pv reflect.Value
+	for k := 0; k < n; k++ {
+		pv = g.Struct(s, 0, nil)
+		pv.Elem().Field(fi).Set(inner)
+		inner = pv
+	}
+	return pv
+}
